@@ -174,6 +174,12 @@ def run(tier, seed):
                 # the destination already exists and holds MORE bytes than the run will write: the output must replace it
                 with open(outp, "wb") as f:
                     f.write(b"\xA5" * (len(j["data"]) + 4096))
+        if j.get("big") or j["sid"] % 3 == 1:
+            # an orthogonal option: a custom-checks file (the end-of-run checks have nothing to do with what is written; seed C08-H)
+            tp = os.path.join(tmp, "cc_%d_%s.toml" % (j["sid"], j["flt"].replace(":", "_")))
+            with open(tp, "w") as f:
+                f.write("triggers_pht = 0\n")
+            args += ["--checks-toml", tp]
         if j["inp"] == "file":
             rc, so, se, _ = core.run_cli([j["path"]] + args)
         else:
